@@ -245,7 +245,13 @@ func (s *store) listFull() (result listFullResult) {
 func (s *store) authenticate(username, password string) (result authenticateResult) {
 	result.ok, result.isAdmin, result.upgradeable, result.lastChanged, result.err = s.dir.Authenticate(username, password)
 	if result.ok && result.upgradeable && s.upgradeChan != nil {
-		s.upgradeChan <- updateRequest{username: username, password: password}
+		// this runs inside the dispatcher: never block here, in local mode the dispatcher itself
+		// is the only consumer of this queue
+		select {
+		case s.upgradeChan <- updateRequest{username: username, password: password}:
+		default:
+			wdl.Printf("upgrade: ignoring upgrade request for '%s', upgrade queue is full", username)
+		}
 	}
 	return
 }
